@@ -111,6 +111,9 @@ func hC16over(extra int, stored int) {
 		return
 	}
 	long := vBigBytes("k", 65536+extra, 0x5a)
+	if !vSymbolic() {
+		vFixHash(long) // realise the model's hash of the long key (it may collide with the short one)
+	}
 	short := append([]byte{}, long[:stored]...) // same prefix, length = long mod 65536 when stored == extra
 	sval := vBytes("sv", 2)
 	vAssert(db.Put(short, sval) == nil, "C16o.put.short")
